@@ -149,8 +149,8 @@ CHECKS = {
   "Defer builds a closure that calls f with the old chain already deferred (LIFO, old chain runs even if f panics). "
   "Processes: exec leaves started-minus-reaped unchanged; cmdExec records a started background command in ts.background before any call that can stop the script, its wait channel is closed only after waitOrStop, which returns only after cmd.Wait returned; "
   "waitBackground and run's clean-up closure receive from every recorded wait channel on both branches before clearing the list. "
-  "RunT's per-script closure allocates a fresh TestScript, registers the clean-up before run; the clean-up removes ts.workdir unless retention was requested and removes the shared root (and cancels) exactly when its own atomic decrement brings the count to zero; removeAll removes the tree it was asked to.",
-  "NOT decided: non-interference between parallel scripts beyond 'fresh per-script state, no os.Environ, distinct clean-up' (scripts sharing files through absolute paths, cd, or chdir of the process are outside any per-call contract); that script names and hence work directories are pairwise distinct (RunT's naming loop is not under contract); that a signalled process really dies and os.RemoveAll succeeds; the Fatalf/FailNow paths run deferred functions by runtime.Goexit (Go semantics, assumed). "
+  "RunT hands pairwise distinct names to t.Run (partial contract: only this clause and its loop invariants are proved for RunT); RunT's per-script closure allocates a fresh TestScript, registers the clean-up before run; the clean-up removes ts.workdir unless retention was requested and removes the shared root (and cancels) exactly when its own atomic decrement brings the count to zero; removeAll removes the tree it was asked to.",
+  "NOT decided: non-interference between parallel scripts beyond 'fresh per-script state, no os.Environ, distinct clean-up' (scripts sharing files through absolute paths, cd, or chdir of the process are outside any per-call contract); that a signalled process really dies and os.RemoveAll succeeds; the Fatalf/FailNow paths run deferred functions by runtime.Goexit (Go semantics, assumed). "
   "assumed (trusted): user clean-up functions (run$4) do not touch ts.background; writeFile, homeEnvName/tempEnvName, abbrev, the pty helpers of exec; externs for os/exec, os, filepath, context, fmt; Params.Setup modifies only Env fields, ts.deferred, strings and files; "
   "waitBackground is verified without its index/type-assertion safety (nosafety, assume_typeasserts)",
   "contract-based deductive verification: call-site obligations over the symbolic defer stack (deferIndex), closure facts (isClosure/capturedInt), ghost process counters and received-channel history, loop invariants over the environment list; z3/cvc5"),
